@@ -29,7 +29,7 @@ T = "MetadorModel.C02."
 LEAN = dict(
     modules=["MetadorModel.Props.C02"],
     theorems=[T + n for n in [
-        "frame", "writes_only_uncommitted_or_fresh", "committed_step", "committed_frozen",
+        "frame", "writes_only_uncommitted_or_fresh", "committed_step", "committed_frozen", "committed_frozen_between",
         "sidecar_frozen", "snapshot_still_valid", "inv_run", "unsafe_w_can_modify"]],
     drivers=["drv_rec"],
 )
